@@ -1117,7 +1117,7 @@ impl<'a> CompilerState<'a> {
             })
             .map_prefix(|op, rhs| match op.as_rule() {
                 Rule::neg => Ok(-rhs?),
-                Rule::not => Ok(!rhs?),
+                Rule::not => Ok(if rhs? == 0 { 1 } else { 0 }),
                 Rule::bnot => Ok(!rhs?),
                 _ => unreachable!(),
             })
